@@ -263,8 +263,10 @@ def run_impl(case):
 # --------------------------------------------------------------------------------------------- model
 
 def model_requests(case, obs):
-    return [{"m": "C18.runMany", "cfg": {"prefix": case["prefix"], "suffix": case["suffix"], "stop": case["stop"]},
-             "end": case["end"], "tokens": case["feed"] == "token", "pipe": bool(case["pipe"]), "chunkings": chunkings_of(case)}]
+    req = {"m": "C18.runMany", "cfg": {"prefix": case["prefix"], "suffix": case["suffix"], "stop": case["stop"]},
+           "end": case["end"], "tokens": case["feed"] == "token", "pipe": bool(case["pipe"]), "chunkings": chunkings_of(case)}
+    # [0] the repaired handler (the model the theorems are about), [1] the handler as it is in the unpatched tree
+    return [req, dict(req, asis=True)]
 
 
 def _pick(case, bad):
@@ -277,18 +279,23 @@ def _pick(case, bad):
 
 
 def compare(case, obs, mouts):
-    m = mouts[0]
+    m, ma = mouts[0], mouts[1]
     runs = obs["runs"]
-    if len(m) != len(runs):
-        return f"model answered {len(m)} runs for {len(runs)} chunkings"
-    bad = []
-    for k, (r, mr) in enumerate(zip(runs, m)):
+    if len(m) != len(runs) or len(ma) != len(runs):
+        return f"model answered {len(m)}/{len(ma)} runs for {len(runs)} chunkings"
+    bad, unexplained = [], []
+    for k, (r, mr, mar) in enumerate(zip(runs, m, ma)):
         got = {"items": r[0], "completion": r[1], "finished": r[2]}
         if got != mr:
-            bad.append((k, f"implementation {got} but model {mr}"))
+            as_is = dict(got, overflow=False) == mar
+            bad.append((k, f"implementation {got} but model {mr}" + (" (the as-is model of the unpatched handler agrees with the implementation)" if as_is else f"; NEITHER does the as-is model agree: {mar}")))
+            if not as_is:
+                unexplained.append(bad[-1])
+    # remembered for tags()/signature(), which the runner calls after compare()
+    obs["model_vs_impl"] = {"differ": len(bad), "explained_by_as_is_model": len(bad) - len(unexplained), "unexplained": [k for k, _ in unexplained[:3]]}
     if not bad:
         return None
-    k, msg = _pick(case, bad)
+    k, msg = unexplained[0] if unexplained else _pick(case, bad)
     return f"[#{k}] chunks {chunkings_of(case)[k]!r}: {msg}"
 
 
@@ -371,6 +378,8 @@ def classify(case, chunks):
 
 
 def signature(case, obs, msg):
+    if "NEITHER" in msg or obs.get("model_vs_impl", {}).get("unexplained"):
+        return None  # inside a recorded region the code must still behave like the as-is model
     try:
         k = int(msg.split("[#", 1)[1].split("]", 1)[0])
         return classify(case, chunkings_of(case)[k])
@@ -413,10 +422,18 @@ def tags(case, obs):
     classes = {classify(case, c) for c in chunkings_of(case)}
     for c in sorted(x for x in classes if x):
         t.append("class:" + c)
+    mv = obs.get("model_vs_impl")
+    if mv is not None:
+        if mv["differ"] == 0:
+            t.append("impl=repaired-model-on-every-chunking")
+        elif not mv["unexplained"]:
+            t.append("impl=as-is-model-where-it-departs-from-repaired")
+        else:
+            t.append("IMPL-MATCHES-NEITHER-MODEL")
     if len({(tuple(r[0]), r[1]) for r in obs["runs"]}) > 1:
         t.append("segmentation-varies")
     if len({("".join(x for x in r[0] if isinstance(x, str)), r[1]) for r in obs["runs"]}) > 1:
-        t.append("RESULT-VARIES-WITH-CHUNKING")
+        t.append("malformed-result-varies" if case.get("malformed") else "RESULT-VARIES-WITH-CHUNKING")
     return t
 
 
